@@ -313,11 +313,14 @@ pub fn gen_project(d: &Data, r: &mut Rng, bad: Option<&str>) -> Project {
         }
         Some("duplicate") => {
             let mut t = tags[r.below(tags.len())].clone();
-            t.parent = None;
-            if t.words.is_empty() {
+            if r.chance(1, 2) {
+                t.parent = None;
+            }
+            if t.words.is_empty() && t.parent.is_none() {
                 t.words = vec![wlist[0].clone()];
             }
-            tags.push(t);
+            let at = r.below(tags.len() + 1);
+            tags.insert(at, t);
             bad_kind = Some("duplicate".into());
         }
         _ => {}
